@@ -83,13 +83,16 @@ def codec_bins(flavor, thorough):
     return out
 
 
-def codec_jobs(prop, flavors=("gcc",), san_extra=()):
+def codec_jobs(prop, flavors=("gcc",), san_extra=(), sub=1):
     def jobs(tier):
         js = []
         for fl in flavors:
-            for b in codec_bins(fl, tier == "thorough"):
-                extra = list(san_extra) if (fl != "gcc" and tier == "quick") else []
-                js.append(job(b, "--prop", prop, "--tier", tier, *extra))
+            for k in range(sub):
+                for b in codec_bins(fl, tier == "thorough"):
+                    extra = list(san_extra) if (fl != "gcc" and tier == "quick") else []
+                    if sub > 1:
+                        extra += ["--sub", "%d/%d" % (k, sub)]
+                    js.append(job(b, "--prop", prop, "--tier", tier, *extra))
         return js
     return jobs
 
@@ -199,6 +202,48 @@ CHECKS["C11"] = dict(
     assumptions=R_ASSUME,
     bounds=dict(quick="depth 3, <= 600 states per type", thorough="depth 4, <= 4000 states per type"),
     floor=dict(transitions=dict(quick=100000, thorough=500000)),
+)
+
+CHECKS["C04"] = dict(
+    engine="codec-lab", level="exploration", jobs=codec_jobs("C04", sub=3),
+    level_text="accept/reject, decoded value and consumed length of the real Deserializer are compared with an independent "
+               "schema-directed decoder on (a) every byte string of length <= 2 (<= 3 for scalar-like types in the thorough "
+               "tier) for every destination type and (b) the closure of valid encodings under the mutation operators M1-M8 "
+               "(every truncation, every byte x every value, every integer field re-encoded in every class of both "
+               "signednesses, every length/count/id/index/hash/size field set to 14 boundary values, table entries "
+               "duplicated/dropped/swapped/shrunk/grown with and without padding, trailing bytes); the error category is "
+               "compared only for single local defects",
+    level_note="readers: PedanticBufferReader, BufferReader, StreamReader<stringstream>, BoundedReader<Pedantic>; inflated "
+               "declared lengths (> 1 MiB) are not fed to the unbounded StreamReader whose Ensure is a no-op by design; "
+               "inputs with repeated map keys are compared on accept/consumed only (R5); " + CODEC_UNIVERSE,
+    technique="bounded exhaustive enumeration of inputs (all short strings + mutation closure) against a reference decoder",
+    rule="one case per (type, input, reader); inputs of the short-string sweep are distinct by construction, mutated inputs "
+         "are distinct per (value, mutation descriptor); non-trivial = input longer than one byte",
+    assumptions=R_ASSUME,
+    bounds=dict(quick="all strings <= 2 bytes x all types; <= 24 depth-1 values per type; byte substitution on encodings <= 48 bytes",
+                thorough="strings <= 3 bytes for scalar-like types; <= 200 values per type; byte substitution <= 96 bytes"),
+    floor=dict(evaluations=dict(quick=20000000, thorough=100000000)),
+)
+
+CHECKS["C02"] = dict(
+    engine="codec-lab", level="exploration", jobs=codec_jobs("C02", ("asan",), sub=4),
+    level_text="the same hostile inputs (mutation closure M1-M8 incl. lengths inflated to 2^64-1, all 1-2 byte strings for "
+               "scalar-like types) are read through every bounded reader rig (BufferReader, PedanticBufferReader, "
+               "BoundedReader over buffer/pedantic/stream/fd readers with exact and huge limits) from an exact-size "
+               "opaque heap block under AddressSanitizer+UBSan with a metered operator new: no sanitizer report, no "
+               "exception, allocation bounded by 64*max(64,sizeof(T))*(len+16) and no single request above 1 MiB for "
+               "inputs <= 4 KiB; afterwards the object is inspected (bool elements are loaded as bool), a valid encoding "
+               "is read into it and must decode to its value, and it is destroyed",
+    level_note="clang 14 -O1 -fsanitize=address,undefined with recover and report hooks; one forked process per type so a "
+               "crash is attributed to the case being executed; structures tagged NOP_UNBOUNDED_BUFFER are excluded as "
+               "the property states; " + CODEC_UNIVERSE,
+    technique="bounded exhaustive enumeration of hostile inputs with sanitizer and allocation monitors",
+    rule="one case per (type, input, bounded reader rig); distinct by construction (value index x mutation descriptor x rig)",
+    assumptions=R_ASSUME + ["UBSan reports each source location once per process; processes are per type"],
+    bounds=dict(quick="<= 8 depth-1 values per type; byte substitution on encodings <= 32 bytes on the two plain buffer readers; "
+                      "structured mutations on all 8 bounded rigs",
+                thorough="<= 24 values per type; byte substitution <= 64 bytes; all 1-2 byte strings for every type"),
+    floor=dict(evaluations=dict(quick=5000000, thorough=20000000)),
 )
 
 ENGINES.append(dict(name="codec-lab", path="checks/codec.cpp + harness/",
